@@ -14,7 +14,10 @@ def _type_name(t):
 
 def canon_kv(kv):
     vl = None
-    if kv.val_list is not None:
+    has_list = not isinstance(kv._type, str) and kv._type.name in ('SPAWNFLAGS', 'CHOICES')
+    if has_list and not kv.val_list:
+        vl = []          # an empty list and None are the same thing (copy() turns one into the other)
+    elif kv.val_list is not None:
         vl = [[v[0], v[1]] + ([bool(v[2])] if len(v) == 4 else []) + [sorted(v[-1])] for v in kv.val_list]
     return {'name': kv.name, 'type': _type_name(kv._type), 'disp': kv.disp_name, 'default': kv.default,
             'desc': kv.desc, 'vals': vl, 'ro': bool(kv.readonly), 'rep': bool(kv.reportable)}
@@ -90,6 +93,36 @@ def io_decay_name(tname):
     return 'VT:' + VALUE_TO_IO_DECAY[t].name
 
 
+def tok_decode(body):
+    """What the tokenizer reads from the inside of a quoted string (Tokenizer._handle_string, escapes on)."""
+    from srctools.tokenizer import ESCAPES
+    out, i, last_cr = [], 0, False
+    while i < len(body):
+        c = body[i]; i += 1
+        if c == '\r':
+            out.append('\n'); last_cr = True; continue
+        if c == '\n':
+            if last_cr:
+                last_cr = False; continue
+            out.append('\n'); continue
+        last_cr = False
+        if c == '\\' and i < len(body):
+            e = body[i]; i += 1
+            if e == '\n':
+                continue
+            out.append(ESCAPES[e] if e in ESCAPES else '\\' + e)
+            continue
+        out.append(c)
+    return ''.join(out)
+
+
+def plain_readback(s):
+    """Documented result of writing `s` WITHOUT custom syntax and reading it back: only newlines are escaped
+    (as \\n), a double quote becomes two single quotes, and whatever backslash sequences the text itself contains
+    are interpreted by the reader."""
+    return tok_decode(s.replace('\n', '\\n').replace('"', "''"))
+
+
 def norm_text(c, custom_syntax, label_spawnflags=True):
     """What `parse(export(fgd))` is documented to give back, from the canonical dump `c` of one entity:
     I/O types decay, a boolean always has a default, spawnflags have no display name of their own,
@@ -101,7 +134,7 @@ def norm_text(c, custom_syntax, label_spawnflags=True):
     ext = custom_syntax
 
     def txt(s):
-        return s if ext else s.replace('"', "''")
+        return s if ext else plain_readback(s)
 
     c['desc'] = txt(c['desc'])
     c['bases'] = [['name', b[1] if b[0] != 'ent' or isinstance(b[1], str) else b[1]['classname']] for b in c['bases']]
@@ -129,7 +162,7 @@ def norm_text(c, custom_syntax, label_spawnflags=True):
                 kv['disp'] = txt(kv['disp'])
             if kv['type'] == 'VT:CHOICES':
                 for v in kv['vals'] or []:
-                    v[1] = v[1].replace('\n', ' ').replace('"', "''")
+                    v[1] = plain_readback(v[1].replace('\n', ' '))
                     if not ext:
                         v[-1] = []
             if kv['type'] == 'VT:BOOL':
@@ -173,7 +206,7 @@ def norm_binary(c, cbase_name='_CBaseEntity_'):
     c['desc'] = ''
     c['helpers'] = []
     names = [b[1] if isinstance(b[1], str) else b[1]['classname'] for b in c['bases']]
-    c['bases'] = [['name', n] for n in names] or [['name', cbase_name]]
+    c['bases'] = [['name', n] for n in names] or ([] if c['classname'].casefold() == cbase_name.casefold() else [['name', cbase_name]])
     for n, variants in c['kv']:
         for tv in variants:
             kv = tv[1]
@@ -581,16 +614,15 @@ def engine_pad(rng, fgd, n_strings=560):
     for nm in ('targetname', 'origin', 'angles'):
         base.keyvalues[nm] = {frozenset(): KVDef(nm, ValueTypes.STRING, nm.title(), '', '')}
     base.inputs['kill'] = {frozenset(): IODef('Kill')}
-    pad = EntityDef(EntityTypes.POINT, 'zz_padding')
-    i = 0
-    while len(pad.keyvalues) * 2 < n_strings:
-        nm = f'padkey{i:04d}'
-        pad.keyvalues[nm] = {frozenset(): KVDef(nm, ValueTypes.STRING, f'Pad {i}', '', '')}
-        i += 1
-        if len(pad.keyvalues) >= 250:
-            fgd.entities[pad.classname.casefold()] = pad
-            pad = EntityDef(EntityTypes.POINT, f'zz_padding{i}')
-    if pad.keyvalues:
+    total = 0
+    for j in range(100):
+        if total * 2 >= n_strings:
+            break
+        pad = EntityDef(EntityTypes.POINT, f'zz_padding{j}')
+        for _ in range(200):
+            nm = f'padkey{total:04d}'
+            pad.keyvalues[nm] = {frozenset(): KVDef(nm, ValueTypes.STRING, f'Pad {total}', '', '')}
+            total += 1
         fgd.entities[pad.classname.casefold()] = pad
     fgd.entities['_cbaseentity_'] = base
     return fgd
